@@ -773,7 +773,7 @@ func TestTeardownStress(t *testing.T) {
 				}
 			}()
 			close(start)
-			wg.Wait()
+			world.WaitOrDiagnose(t, &wg, "C10/concurrent", fmt.Sprintf("teardown against subscription calls (round %d)", r))
 			victim.Gone = true
 			w.Sync()
 			granted := map[string]bool{}
